@@ -970,10 +970,17 @@ class IASolverBaseClass:  # pylint: disable=R0902
         assert (self._Ns is not None)
         Bkl_all_l = np.empty(self._Ns[k], dtype=np.ndarray)
         first_part = self._calc_Bkl_cov_matrix_first_part(k)
+        # Covariance of the noise plus - if the channel has external
+        # interference sources - of the external interference (with the
+        # same unit power that `calc_Q` uses)
+        Rek = noise_power * np.eye(self.Nr[k])
+        if isinstance(self._multiUserChannel,
+                      muchannels.MultiUserChannelMatrixExtInt):
+            Rek = Rek + self._multiUserChannel.\
+                calc_cov_matrix_extint_without_noise()[k]
         for l in range(self._Ns[k]):
             second_part = self._calc_Bkl_cov_matrix_second_part(k, l)
-            Bkl_all_l[l] = first_part - second_part + (noise_power *
-                                                       np.eye(self.Nr[k]))
+            Bkl_all_l[l] = first_part - second_part + Rek
 
         return Bkl_all_l
 
